@@ -268,7 +268,7 @@ static void do_ops(char* ops, int in_cb) {
       if (sscanf(tok + 1, "%d,%d,%d,%u,%d", &i, &c, &p, &iv, &f) == 5 && i >= 0 && i < nh &&
           !H[i]->closing && p >= 0 && p < npaths) {
         int r;
-        in_start = 1; fail_calloc = (f == 1); fail_malloc = (f == 2);
+        in_start = 1; fail_calloc = (f == 1); fail_malloc = (f == 2 || f == 3);
         r = uv_fs_poll_start(&H[i]->h, cbs[c & 3], pathname[p], iv);
         in_start = 0; fail_calloc = fail_malloc = 0;
         printf("r%d ", r);
